@@ -157,6 +157,11 @@ pub fn corpus() -> Vec<(String, Vec<String>)> {
         ("whitespace".into(), s(&["  lead", "trail  ", "\t"])),
         ("dashes".into(), s(&["-dash", "--x", "-"])),
         ("single".into(), s(&["a"])),
+        // characters that some tools take for line breaks or terminators, and noncharacters: all belong to the test case
+        ("odd-separators".into(), s(&["a\u{c}b", "c\u{85}d", "e\u{2028}f", "g\u{b}h", "\u{fffe}", "\u{ffff}x", "i\u{2029}j", "k\u{1a}l"])),
+        // streams whose size is exactly a buffer size (with LF framing and a final newline): 1024 and 8192 lines of 8 bytes
+        ("exact-8192".into(), (0..1024).map(|i| ["abcdefg", "abcdefh", "abcdefi"][i % 3].to_string()).collect()),
+        ("exact-65536".into(), (0..8192).map(|i| ["abcdefg", "abcdefh", "abcdefi"][i % 3].to_string()).collect()),
         ("flag-like".into(), s(&["--digits", "-d", "--min-repetitions=2", "-", "--", "-f"])),
         ("hyphen-item".into(), s(&["a", "-", "b"])),
         ("numbers".into(), s(&["007", "+1", "1e3", "0x1F", "3.14", "1_000", "٣٤", "४२"])),
@@ -237,6 +242,9 @@ pub fn make_case(channel: &str, lines: &[String], content: &[u8], cfg: &Cfg, rng
         dchunk: vec![],
         env: vec![],
         file_name: String::new(),
+        stdin_kind: 0,
+        relative_path: false,
+        cwd: None,
         note: String::new(),
     }
 }
@@ -259,6 +267,9 @@ pub fn make_probe_case(content: &[u8], cfg: &Cfg, rng: &mut Rng) -> Case {
         dchunk: vec![],
         env: vec![],
         file_name: String::new(),
+        stdin_kind: 0,
+        relative_path: false,
+        cwd: None,
         note: String::new(),
     }
 }
@@ -349,6 +360,11 @@ pub fn unusable_streams() -> Vec<(String, Vec<u8>)> {
         ("overlong".into(), vec![b'a', 0xC0, 0xAF, b'\n']),
         ("encoded-surrogate".into(), vec![0xED, 0xA0, 0x80, b'\n']),
         ("latin1".into(), vec![b'c', b'a', b'f', 0xE9, b'\n']),
+        ("invalid-after-64k".into(), {
+            let mut v = "abcdefg\n".repeat(8200).into_bytes();
+            v.extend([b'x', 0xC3, b'\n']);
+            v
+        }),
         ("invalid-after-8k".into(), {
             let mut v = "abcdefg\n".repeat(1100).into_bytes();
             v.extend([0xFF, b'\n']);
